@@ -56,7 +56,7 @@ class C15:
     agree_mod = "C15Agree"
     per_shard = 20
     extra_imports = "From LV Require Import SpecDocs PackageCmd.\n"
-    rule = ("generated cargo workspaces with 1..5 libcnb.rs buildpack crates (1..3 bin targets; the main target is the only "
+    rule = ("generated cargo workspaces with 1..5 libcnb.rs buildpack crates (1..3 bin targets, optionally an integration test, an example, a bench and a build script, which are not buildpack binaries; the main target is the only "
             "bin, or the one named like the package, or -- error case -- ambiguous), 0..3 composite buildpacks whose "
             "package.toml mixes libcnb: (to crates and to other composites, forming a DAG), relative-path and docker:// "
             "dependencies, non-libcnb buildpack directories, an .ignore file for the output directories; invoked from the "
@@ -101,7 +101,10 @@ class C15:
                 else:
                     bins = ["x" + name, "y" + name]          # ambiguous
                 libs.append({"dir": rng.choice(["buildpacks/", "", "deep/er/"]) + name, "id": rng.choice(["verif/", "org.x/", ""]) + name,
-                             "pkg": pkg, "bins": bins, "extra": rng.choice(["", "\n[metadata]\nk = 1\n", "\n# trailing comment\n"])})
+                             "pkg": pkg, "bins": bins, "extra": rng.choice(["", "\n[metadata]\nk = 1\n", "\n# trailing comment\n"]),
+                             # cargo targets that are NOT binaries of the buildpack (cargo metadata lists them with
+                             # crate_types ["bin"] too; only kind ["bin"] marks a binary)
+                             "aux": [a for a in ["test", "example", "bench", "build"] if rng.random() < 0.3]})
             comps = []
             for k in range(rng.randint(0, 3)):
                 name = "meta%d" % k
@@ -166,6 +169,14 @@ class C15:
             for bname in L["bins"]:
                 cargo += f'\n[[bin]]\nname = "{bname}"\npath = "src/{bname}.rs"\n'
                 open(os.path.join(d, "src", bname + ".rs"), "w").write(f'fn main() {{ println!("{L["id"]}:{bname}"); }}\n')
+            for aux in L.get("aux", []):
+                sub, body = {"test": ("tests", "#[test]\nfn t() {}\n"), "example": ("examples", "fn main() {}\n"),
+                             "bench": ("benches", "fn main() {}\n"), "build": ("", "fn main() {}\n")}[aux]
+                if sub:
+                    os.makedirs(os.path.join(d, sub), exist_ok=True)
+                    open(os.path.join(d, sub, f"{aux}_{L['pkg']}.rs"), "w").write(body)
+                else:
+                    open(os.path.join(d, "build.rs"), "w").write(body)
             open(os.path.join(d, "Cargo.toml"), "w").write(cargo)
             open(os.path.join(d, "buildpack.toml"), "w").write(f'api = "0.10"\n\n[buildpack]\nid = "{L["id"]}"\nversion = "0.1.0"\n{L["extra"]}')
         for C in c["comps"]:
